@@ -111,6 +111,17 @@ func decode(raw json.RawMessage) (any, error) {
 	return c, nil
 }
 
+// cmdID reads the id of a dequeued command; a zero Completed (a queue that hands out an empty slot)
+// must not crash the observer
+func cmdID(one rueidis.Completed) (id int) {
+	defer func() {
+		if recover() != nil {
+			id = -1
+		}
+	}()
+	return rueidis.VerifCmdID(one)
+}
+
 func spin(us int) {
 	if us <= 0 {
 		return
@@ -168,7 +179,11 @@ func runQueue(c Case) *runInfo {
 			if multi != nil {
 				one = multi[0]
 			}
-			id := rueidis.VerifCmdID(one)
+			id := cmdID(one)
+			if id < 0 {
+				problem("exactly-once: the writer was handed an empty command")
+				return
+			}
 			rueidis.VerifEmit(hvWItem, id, 0)
 			mu.Lock()
 			info.wOrder = append(info.wOrder, id)
@@ -300,7 +315,7 @@ func finish(q *rueidis.VerifQueue, one rueidis.Completed, multi []rueidis.Comple
 	if multi != nil {
 		one = multi[0]
 	}
-	cid := rueidis.VerifCmdID(one)
+	cid := cmdID(one)
 	rueidis.VerifEmit(hvRItem, cid, 0)
 	id := <-server // the reply the server sent for the next written command
 	if id != cid {
@@ -622,9 +637,19 @@ func ticketsEmittedTarget(emitted *int, evs []rueidis.VerifEvent, i int) int {
 	return *emitted
 }
 
+// after a few stuck executions the remaining cases are skipped: every stuck case costs its time-out and
+// leaves blocked goroutines behind, and the verdict is already decided
+var stuckRuns int
+
 func run(ci any) (res obs.Result) {
 	c := ci.(Case)
+	if stuckRuns >= 3 {
+		return obs.Result{Kind: "skipped-after-stuck", Sig: "skipped"}
+	}
 	info := runQueue(c)
+	if info.stuck {
+		stuckRuns++
+	}
 	res.Kind = c.Queue
 	res.Site = c.Queue + ".go"
 	if c.Queue == "flow" {
